@@ -210,7 +210,7 @@ def analyse(text, label):
                         st["wake_with_notifs"] += 1
                     else:
                         if cur and cur[0] == 4:
-                            notifs.setdefault(cur[1], {}).update({"ptr": e.b, "reg": e.seq})
+                            notifs.setdefault(cur[1], {}).update({"ptr": e.b, "reg": e.seq, "regthr": thr, "regrem": len(evs) - i})
                         st["notify_first_pusher" if e.a == 0 else "notify_behind"] += 1
                 elif k == 3 and e.off == OFF_NQ:
                     st["submitted"] += 1
@@ -274,16 +274,12 @@ def analyse(text, label):
                               "what": "notification block %d ran %d times" % (nid, len(runs))})
             if runs and "call" in n:
                 if min_over(lb_pts, n["call"], runs[0], lb_at) > 0:
-                    # signature of the known defect: submitted by a thread whose observation of the count at zero (the atomic
-                    # add of dispatch_group_leave, or the load of a registering _dispatch_group_notify) precedes the
-                    # registration of this notification: it acts on a stale zero when it detaches the list
-                    sub = sorted(x for x in submits if x[1] == n.get("ptr") and x[0] > n.get("reg", 0))
-                    stale = bool(sub) and sub[0][3] is not None and sub[0][3] < n.get("reg", 0)
-                    st["notify_early_stale_zero" if stale else "notify_early_other"] = \
-                        st.get("notify_early_stale_zero" if stale else "notify_early_other", 0) + 1
-                    fails.append({"key": "notify-early" if stale else "%s:round%d:notify-early:%d" % (label, rd, nid),
+                    # whether this is the known defect is decided after the global replay (correspond): the key stays an
+                    # instance key unless the round replays completely on Group.gstep and the model run itself submits this very
+                    # notification although the count was not zero since its registration
+                    fails.append({"key": "%s:round%d:notify-early:%d" % (label, rd, nid),
                                   "label": label, "round": rd, "instance": "%s:round%d:%d" % (label, rd, nid),
-                                  "submitted_by": sub[0] if sub else None,
+                                  "early_candidate": True, "regthr": n.get("regthr"), "regrem": n.get("regrem"),
                                   "what": "a block passed to dispatch_group_notify (call stamp %d) started running at stamp %d "
                                           "although at every moment in between at least one dispatch_group_enter that had returned "
                                           "before had no dispatch_group_leave even started (round kind %d, %d threads)"
@@ -315,6 +311,11 @@ def round_order(thr, limit=400000):
     as they are enabled.  FUTEX_WAKE: its note is written before the system call, so the wake takes effect between the note and
     the thread's next event; a futex_wait that returned 0 needs a wake after its own note: when no wake note lies in between, the
     most recent earlier wake still in flight is moved to just after the sleeper's note.
+    Real time where it is known exactly is respected: harness-level events (call / return / callout marks) take their ticket
+    themselves, so their ticket order is their real order and they are executed in that order; and a notification block starts
+    running only after the continuation was submitted (the list is followed in the sketch).  With these two rules the model run
+    orders every enter that returned before a dispatch_group_notify call before the registration, and every leave that started
+    after the block ran after the submission: whenever the stamp oracle finds a notification early, the model run does too.
     The search only proposes an order: every step is checked by the model in Coq, a wrong proposal can only make the replay fail."""
     import bisect
     M32, M64 = 0xffffffff, (1 << 64) - 1
@@ -352,6 +353,8 @@ def round_order(thr, limit=400000):
     def cls(e):
         """(class, location): class m = modifies, o = observes, a = always enabled, r = futex return"""
         k, off, grp = e.kind, e.off, e.obj < NQ_BASE
+        if k >= 100:
+            return "u", None
         if not grp:
             return "a", None
         if off == 0 and k in (6, 7):
@@ -380,6 +383,25 @@ def round_order(thr, limit=400000):
         return e.a == tail
 
     tids = sorted(th)
+    users = sorted((c.e.seq, tid, j) for tid, t in th.items() for j, c in enumerate(t) if c.e.kind >= 100)
+    callof = {}
+    for tid, t in th.items():
+        cc = None
+        for j, c in enumerate(t):
+            if c.e.kind == 100:
+                cc = (c.e.a, c.e.b)
+            callof[(tid, j)] = cc
+            if c.e.kind == 101:
+                cc = None
+    X = {"ui": 0, "lst": [], "held": {}, "fired": set()}      # user-event cursor, sketch of the notify list
+
+    def xcopy(x):
+        return {"ui": x["ui"], "lst": list(x["lst"]), "held": {k: list(v) for k, v in x["held"].items()}, "fired": set(x["fired"])}
+
+    def user_ok(tid, j, e):
+        if X["ui"] >= len(users) or users[X["ui"]][1:] != (tid, j):
+            return False
+        return not (e.kind == 102 and e.a == 4) or e.b in X["fired"]
     pos = {t: 0 for t in tids}
     slp = {t: "A" for t in tids}
     cur, tail, order, steps = 0, 0, [], 0
@@ -400,8 +422,18 @@ def round_order(thr, limit=400000):
                     cur = e.b
             else:
                 tail = e.b
+                if e.b:
+                    cc = callof.get((tid, pos[tid]))
+                    X["lst"].append(cc[1] if cc and cc[0] == 4 else None)
+                else:
+                    X["held"][tid] = X["lst"]
+                    X["lst"] = []
         elif e.obj < NQ_BASE and e.kind == 32:
             slp[tid] = "S" if (cur >> 32) == e.a else "N"
+        elif c == "u":
+            X["ui"] += 1
+        elif e.obj >= NQ_BASE and X["held"].get(tid):
+            X["fired"].add(X["held"][tid].pop(0))
         elif e.obj < NQ_BASE and e.kind == 34:
             for u in tids:
                 if slp[u] == "S":
@@ -420,7 +452,8 @@ def round_order(thr, limit=400000):
             if pos[t] < len(th[t]):
                 e = th[t][pos[t]].e
                 c, loc = cls(e)
-                if enabled(e, c, loc, cur, tail, slp[t]) and all(pos[x] > xj for (x, xj) in deps.get((t, pos[t]), ())):
+                if (user_ok(t, pos[t], e) if c == "u" else enabled(e, c, loc, cur, tail, slp[t])) and \
+                        all(pos[x] > xj for (x, xj) in deps.get((t, pos[t]), ())):
                     cands.append((stamp[(t, pos[t])], t, c, loc))
         obs = [x for x in cands if x[2] == "o"]
         if obs:
@@ -431,7 +464,7 @@ def round_order(thr, limit=400000):
             if first[2] == "m":
                 alts = sorted(x for x in cands if x[2] == "m" and x[3] == first[3])
                 if len(alts) > 1:
-                    stack.append(([x[1] for x in alts[1:]], (cur, tail, dict(pos), dict(slp), len(order))))
+                    stack.append(([x[1] for x in alts[1:]], (cur, tail, dict(pos), dict(slp), len(order), xcopy(X))))
             apply(first[1])
             continue
         # dead end: back to the last choice point that has an alternative left
@@ -439,8 +472,8 @@ def round_order(thr, limit=400000):
             stack.pop()
         if not stack:
             return fallback, False
-        alts, (cur, tail, p0, s0, n0) = stack[-1]
-        pos, slp = dict(p0), dict(s0)
+        alts, (cur, tail, p0, s0, n0, x0) = stack[-1]
+        pos, slp, X = dict(p0), dict(s0), xcopy(x0)
         del order[n0:]
         apply(alts.pop(0))
     return order, True
@@ -507,8 +540,8 @@ def coq_rounds(name, alltr, allfin, chunk_events=14000, workers=4, timeout=900, 
     res = [None] * len(alltr)
     counts = {"rounds_total": len(keys), "rounds_replayed_on_global_model": 0, "rounds_not_replayed_trace_rejected": 0,
               "rounds_not_replayed_stuck_run": 0, "events_replayed_on_global_model": 0, "replayed_rounds_with_early_notification": 0,
-              "invariant_evaluations_false": 0}
-    mism = []
+              "invariant_evaluations_false": 0, "early_submissions_in_model_runs": 0}
+    mism, model_early = [], {}
     with ThreadPoolExecutor(max_workers=workers) as ex:
         results = [x for part in ex.map(one, list(enumerate(chunks))) for x in part]
     for key, conf, rp in results:
@@ -523,7 +556,9 @@ def coq_rounds(name, alltr, allfin, chunk_events=14000, workers=4, timeout=900, 
             continue
         nev = sum(len(t) for (_, t, _) in thr)
         (done, left, word, gens, outst, nreg, nql, idle, noslp, fired, early, bad, chk_end, stuck_tid) = rp[:14]
-        remaining = rp[14:]
+        sep = rp.index(-9999, 14) if -9999 in rp[14:] else len(rp)
+        remaining = rp[14:sep]
+        early_regs = set(zip(rp[sep + 1::2], rp[sep + 2::2]))     # registration events of the notifications the model submits early
         fin = allfin.get(key)
         problems = []
         if left != 0 or done != nev:
@@ -554,11 +589,13 @@ def coq_rounds(name, alltr, allfin, chunk_events=14000, workers=4, timeout=900, 
             counts["rounds_replayed_on_global_model"] += 1
             counts["events_replayed_on_global_model"] += nev
             counts["replayed_rounds_with_early_notification"] += early
-    return res, {"mismatches": mism[:10], "counts": counts}
+            counts["early_submissions_in_model_runs"] += len(early_regs)
+            model_early[key] = early_regs
+    return res, {"mismatches": mism[:10], "counts": counts, "model_early": model_early}
 
 
 def correspond(ctx):
-    nseeds, rounds = (3, 36) if ctx.tier == "quick" else (24, 120)
+    nseeds, rounds = (3, 36) if ctx.tier == "quick" else (24, 60)
     fails, mism, alltr, total, notes, allfin = [], [], [], {}, [], {}
     # fixed corpus first: the deterministic witness of the notify-early defect found on the unchanged tree
     for v in (0, 1):
@@ -577,7 +614,14 @@ def correspond(ctx):
     for i in range(nseeds):
         seed = ctx.seed * 1000 + i
         permille = [0, 150, 400][i % 3]
-        text = run_harness(ctx, seed, rounds, permille)
+        try:
+            text = run_harness(ctx, seed, rounds, permille)
+        except RuntimeError as ex:
+            # the stress client died (a trap inside the library, DISPATCH_CLIENT_CRASH / DISPATCH_INTERNAL_CRASH): a failing input
+            fails.append({"key": "seed%d:harness-died" % seed, "label": "seed%d" % seed, "round": -1,
+                          "what": "the stress client did not survive the run (seed %d, %d rounds, perturbation %d permille): %s"
+                                  % (seed, rounds, permille, str(ex)[:200])})
+            continue
         f, tr, st, was_stuck, fin = analyse(text, "seed%d" % seed)
         fails += f
         alltr += [(sv, t, rd, thr, seed) for (sv, t, rd, thr) in tr]
@@ -593,7 +637,7 @@ def correspond(ctx):
     for (sv, t, rd, thr, seed) in toolong[:5]:
         mism.append({"what": "a recorded thread trace has %d events inside one round (a thread spinning inside the library)" % len(t),
                      "detail": {"seed": seed, "round": rd, "thread": thr, "trace_tail": [e.brief() for e in t[-12:]]}})
-    inv_period = INV_PERIOD if ctx.tier == "quick" else 40
+    inv_period = INV_PERIOD if ctx.tier == "quick" else 100
     res, rep = coq_rounds("c07_rounds", alltr, allfin, period=inv_period)
     for (i, idle), (sv, t, rd, thr, seed) in zip(res, alltr):
         if i != -1 or idle != 1:
@@ -604,6 +648,22 @@ def correspond(ctx):
                                     "trace_window": [e.brief() for e in t[lo:lo + 30]]}})
     mism += rep["mismatches"]
     total.update(rep["counts"])
+    # known or not: an early notification found by the stamp oracle is the known defect exactly when its round replays
+    # completely on the global model and the model run itself submits that very notification (identified by its registration
+    # event) while the count has not been zero since its registration.  No ticket comparison is involved: the replay respects
+    # the exact order of the harness-level marks, so every model run agrees with the oracle on such a notification; an early
+    # notification of a round that does not replay, or that the model does not produce, keeps its instance key.
+    total["notify_early_known_by_model_run"] = total["notify_early_not_reproduced_by_model"] = 0
+    for f in fails:
+        if f.get("early_candidate"):
+            seed = int(f["label"].replace("seed", ""))
+            me = rep["model_early"].get((seed, f["round"]))
+            if me is not None and f.get("regthr") is not None and (f["regthr"] + 1, f["regrem"]) in me:
+                f["key"] = "notify-early"
+                total["notify_early_known_by_model_run"] += 1
+            else:
+                f["replayed"] = me is not None
+                total["notify_early_not_reproduced_by_model"] += 1
     distinct = len(set(tuple((e.e.kind, e.e.off, e.e.ok & 1) for e in t) for (_, t, _, _, _) in alltr))
     samples = [{"trace": [e.brief() for e in t][:60]} for (_, t, _, _, _) in alltr[:2]]
     slept = [x for x in alltr if any(e.e.kind == 32 for e in x[1])][:2]
